@@ -67,6 +67,11 @@ async_worker_t* async_worker_create(async_worker_proc_t proc, void* context, siz
         attr_ptr = &attr;
     }
     
+    /* A worker that has been created is running as far as its owner can tell, whether or
+     * not the new thread has been scheduled yet: a timed join() issued right away took the
+     * initial STOPPED for "finished" and blocked in pthread_join() without limit. */
+    atomic_store(&worker->state, ASYNC_WORKER_RUNNING);
+
     int result = pthread_create(&worker->thread, attr_ptr, worker_thread_proc, worker);
     
     if (attr_ptr) {
@@ -74,6 +79,7 @@ async_worker_t* async_worker_create(async_worker_proc_t proc, void* context, siz
     }
     
     if (result != 0) {
+        platform_event_destroy(&worker->stop_event);
         free(worker);
         return NULL;
     }
